@@ -219,6 +219,13 @@ func reflectStruct(rv reflect.Value, val any, opt *Options) any {
 	fields := si.getFields(opt)
 	addr := rv.UnsafeAddr()
 	for _, fi := range fields {
+		if 1 < len(fi.index) {
+			// A promoted field. If an embedded pointer on the way to it is
+			// nil there is nothing to encode, as with encoding/json.
+			if _, err := rv.FieldByIndexErr(fi.index); err != nil {
+				continue
+			}
+		}
 		if v, fv, omit := fi.value(fi, rv, addr); !omit {
 			if fv.IsValid() {
 				if opt.NestEmbed && fv.Kind() == reflect.Struct {
@@ -246,6 +253,13 @@ func reflectEmbed(rv reflect.Value, val any, opt *Options) any {
 	}
 	fields := si.getFields(opt)
 	for _, fi := range fields {
+		if 1 < len(fi.index) {
+			// A promoted field. If an embedded pointer on the way to it is
+			// nil there is nothing to encode, as with encoding/json.
+			if _, err := rv.FieldByIndexErr(fi.index); err != nil {
+				continue
+			}
+		}
 		if v, fv, omit := fi.ivalue(fi, rv, 0); !omit {
 			if fv.IsValid() {
 				if opt.NestEmbed && fv.Kind() == reflect.Struct {
